@@ -263,3 +263,7 @@ mod tests {
         });
     }
 }
+
+#[cfg(kani)]
+#[path = "/verif/kani/state_proofs.rs"]
+pub(crate) mod verif_proofs; // verification hook (H2): specs and contract harnesses live in /verif
